@@ -80,7 +80,7 @@ def execute(spec, backend, workdir):
     projgen.clear_caches()
     os.makedirs(workdir, exist_ok=True)
     log = os.path.join(workdir, 'actors.log')
-    built = graphgen.build(spec, log=log)
+    built = graphgen.build(spec, log=log, opaque=bool(spec.get('opaque')))
     assets = None
     release = None
     if spec['assets']:
@@ -255,7 +255,7 @@ def check_case(ctx, spec, backends, workroot):
         return
     # which values are sinks (leaf nodes): from the direct evaluator on a throw-away build
     port.Subscription._PORTS.clear()  # pylint: disable=protected-access
-    built = graphgen.build(spec)
+    built = graphgen.build(spec, opaque=bool(spec.get("opaque")))
     expected = graphgen.evaluate(built, spec, None)
     leafdgs = set()
     for node in expected['nodes']:
@@ -293,7 +293,7 @@ def check_repeated_calls(ctx, spec, workdir):
     from vlib import graphgen, symbolic
 
     port.Subscription._PORTS.clear()  # pylint: disable=protected-access
-    built = graphgen.build(spec)
+    built = graphgen.build(spec, opaque=bool(spec.get("opaque")))
     try:
         symbols = flow.compile(built.segment, None)
         reused = pyfunc.Expression(symbols)
@@ -344,10 +344,14 @@ def run(ctx):
                 backends = ['synchronous', 'threads']
             if k % procs_every == 0:
                 backends.append('processes')
+            if k % 2:  # actor names delivered through values that all builders render alike
+                spec['opaque'] = True
+                ctx.count('opaque_parameter_cases')
             check_case(ctx, spec, backends, workroot)
         # directed known-shape cases: source shared by 2 consumers, diamond of unequal depth
         for spec in DIRECTED:
             check_case(ctx, json.loads(json.dumps(spec)), ['synchronous', 'threads', 'pyfunc'], workroot)
+            check_case(ctx, dict(json.loads(json.dumps(spec)), opaque=True), ['synchronous', 'threads', 'pyfunc'], workroot)
     except StopShard:
         pass
     finally:
